@@ -98,6 +98,8 @@ class AlgorithmWithAnnealingMixin:
             )
 
         if self.algo_parameters["annealing"]["n_plateau"] == 1:
+            if self.algo_parameters["annealing"]["initial_temperature"] < 1:
+                raise LeaspyAlgoInputError("Your `initial_temperature` should be >= 1")
             warnings.warn(
                 "You defined `annealing.n_plateau` = 1, so you will stay at initial temperature. "
                 "Consider setting `annealing.n_plateau` >= 2 for a true annealing scheme."
